@@ -12,7 +12,7 @@ def splitTag (cs : List Char) : Option (Nat × List Char × List Char) :=
   let (p, r) := takeWhileC Char.isDigit cs
   match r with
   | '_' :: r' =>
-    let (payload, rest) := takeWhileC (fun c => c.isAlphanum || c == '-') r'
+    let (payload, rest) := takeWhileC (fun c => c.isAlphanum || c == '-' || c.toNat > 127) r'
     (String.ofList p).toNat?.map (fun n => (n, payload, rest))
   | _ => none
 
